@@ -236,8 +236,8 @@ def run(ctx):
         if ch:
             jobs.append((j % 2, {"kind": "pearson", "insts": pinsts, "groups": ch, "seed": ctx.seed * 1000 + j}))
     for j in range(nrec):
-        jobs.append((j % 2, {"kind": "record", "seed": ctx.seed * 7919 + 3 + 31 * j, "n_direct": 6 if ctx.thorough else 4,
-                             "n_pc": 4 if ctx.thorough else 3, "tid0": 1000 * j, "thorough": ctx.thorough}))
+        jobs.append((j % 2, {"kind": "record", "seed": ctx.seed * 7919 + 3 + 31 * j, "n_direct": 16 if ctx.thorough else 5,
+                             "n_pc": 8 if ctx.thorough else 3, "tid0": 1000 * j, "thorough": ctx.thorough}))
     traces = []
     t1 = time.time()
     results = run_workers(ctx, "c19", "multi_w", jobs)
@@ -345,7 +345,8 @@ def validate_traces(ctx, traces, tag="Trace"):
             ok = False
             cc = {"dof": v["dof"], "zerocell": bool(v["feat"]["zero_cell"]), "yates": bool(v["feat"]["yates"]), "Z": e["Z"]}
             feats = features_for(cc, v["L"]) if clause != "pc.significance_level" else {"ci_test": t.get("pc_test")}
-            ctx.violation({"api": "CITests." + e["api"] if clause != "pc.significance_level" else "PC.build_skeleton",
+            generic = "all_degenerate" in feats or "lam_class" in feats        # classes that do not depend on the wrapper called
+            ctx.violation({"api": "PC.build_skeleton" if clause == "pc.significance_level" else "CITests." + ("power_divergence" if generic else e["api"]),
                            "clause": clause.split(".")[0] if clause.split(".")[0] in ("statistic", "p_value") else clause, "features": feats,
                            "case": {"kind": "trace", "trace": tr, "event": v["seq"]}, "observed": obs, "expected": exp})
         if ok:
